@@ -20,7 +20,7 @@ use crate::ros::{
     bits_text, parse_bits, parse_cb, run_executor, supply_legal, CbDesc, CbKind, Entity,
     ExecConfig, ExecResult, RosViolation, RosWorkload, SrcArrival, SupPolicy,
 };
-use crate::stats::{run_parallel, Acc, Counters, Distinct, Report};
+use crate::stats::{run_parallel_then, Acc, Counters, Distinct, Report};
 
 #[derive(Clone, Copy, Debug, PartialEq, Eq)]
 pub enum Analysis {
@@ -1102,75 +1102,77 @@ pub fn run_ros_property(opt: &Options, prop: &'static str) -> i32 {
         nontrivial: &nontrivial,
         inputs: &inputs_fp,
     };
-    let mut acc = run_parallel(inputs, opt.jobs, 90, |k, acc, note| ros_item(&sh, k, acc, note));
-    let wall = t0.elapsed().as_secs_f64();
-    let mut cov = Json::obj();
-    cov.set("evaluations", Json::Int(acc.counters.get("runs") as i128));
-    cov.set("distinct_nontrivial", Json::Int(nontrivial.count() as i128));
-    cov.set(
-        "rule",
-        Json::str(
-            "one evaluation = one simulated execution of the ROS 2 executor stub under the \
-             reservation stub: arrival times anywhere the library's curves allow, execution times \
-             in [1,WCET], budget placement chosen online by the adversary (early / late / \
-             early-then-late aligned with a burst / random / withheld while busy / \
-             over-provisioned), grid phase; every instance of every callback (chain: source \
-             arrival to completion of the last callback) is monitored against the bound the real \
-             analysis returned (C05: the self-consistent vector obtained by iterating the analysis \
-             from the WCETs). distinct = distinct fingerprints of the executor's decision / \
-             completion log; non-trivial = some monitored instance was delayed beyond its own \
-             execution",
-        ),
-    );
-    cov.set("distinct_schedules", Json::Int(fps.count() as i128));
-    cov.set("distinct_inputs", Json::Int(inputs_fp.count() as i128));
-    cov.set("simulated_time_ticks", Json::Int(acc.counters.get("sim_ticks") as i128));
-    cov.set(
-        "components",
-        components_json(
+    let fin = |mut acc: Acc| -> i32 {
+        let wall = t0.elapsed().as_secs_f64();
+        let mut cov = Json::obj();
+        cov.set("evaluations", Json::Int(acc.counters.get("runs") as i128));
+        cov.set("distinct_nontrivial", Json::Int(nontrivial.count() as i128));
+        cov.set(
+            "rule",
+            Json::str(
+                "one evaluation = one simulated execution of the ROS 2 executor stub under the \
+                 reservation stub: arrival times anywhere the library's curves allow, execution times \
+                 in [1,WCET], budget placement chosen online by the adversary (early / late / \
+                 early-then-late aligned with a burst / random / withheld while busy / \
+                 over-provisioned), grid phase; every instance of every callback (chain: source \
+                 arrival to completion of the last callback) is monitored against the bound the real \
+                 analysis returned (C05: the self-consistent vector obtained by iterating the analysis \
+                 from the WCETs). distinct = distinct fingerprints of the executor's decision / \
+                 completion log; non-trivial = some monitored instance was delayed beyond its own \
+                 execution",
+            ),
+        );
+        cov.set("distinct_schedules", Json::Int(fps.count() as i128));
+        cov.set("distinct_inputs", Json::Int(inputs_fp.count() as i128));
+        cov.set("simulated_time_ticks", Json::Int(acc.counters.get("sim_ticks") as i128));
+        cov.set(
+            "components",
+            components_json(
+                &[
+                    "ros2::{rta_event_source, rta_timer, rta_polling_point_callback, rta_processing_chain}, ros2::rr::rta_subchain, ros2::bw::rta_subchain, fixed_point::*, supply::{Dedicated, Periodic, Constrained}, demand::{RBF, Aggregate}, arrival::* (real, release profile, public API)",
+                ],
+                &[
+                    "ROS 2 single-threaded executor (timers first, ready set refreshed only when empty, non-preemptive callbacks, KEEP_ALL queues) (stub, sim/src/ros.rs)",
+                    "reservation server with online adversarial budget placement (stub, sim/src/ros.rs)",
+                    "event sources, execution-time source (stubs, sim/src/release.rs, roscheck.rs)",
+                ],
+            ),
+        );
+        let prop_owned = prop.to_string();
+        let out = finish(
+            opt,
+            &mut acc,
+            wall,
+            cov,
             &[
-                "ros2::{rta_event_source, rta_timer, rta_polling_point_callback, rta_processing_chain}, ros2::rr::rta_subchain, ros2::bw::rta_subchain, fixed_point::*, supply::{Dedicated, Periodic, Constrained}, demand::{RBF, Aggregate}, arrival::* (real, release profile, public API)",
+                "the executor stub implements the model the property states (DESIGN.md 3.4): timers evaluated with up-to-date information at every decision, polled callbacks only through the ready-set snapshot, decisions only in supplied slots, arrivals visible in the tick they occur, successors visible one tick after completion",
+                "admissible arrival sequences are defined by the library's own number_arrivals",
+                "the ROS 2 bounds are not tight: a change that stays above the true worst case of every sampled workload is invisible (DESIGN.md 3.5)",
             ],
-            &[
-                "ROS 2 single-threaded executor (timers first, ready set refreshed only when empty, non-preemptive callbacks, KEEP_ALL queues) (stub, sim/src/ros.rs)",
-                "reservation server with online adversarial budget placement (stub, sim/src/ros.rs)",
-                "event sources, execution-time source (stubs, sim/src/release.rs, roscheck.rs)",
-            ],
-        ),
-    );
-    let prop_owned = prop.to_string();
-    let out = finish(
-        opt,
-        &mut acc,
-        wall,
-        cov,
-        &[
-            "the executor stub implements the model the property states (DESIGN.md 3.4): timers evaluated with up-to-date information at every decision, polled callbacks only through the ready-set snapshot, decisions only in supplied slots, arrivals visible in the tick they occur, successors visible one tick after completion",
-            "admissible arrival sequences are defined by the library's own number_arrivals",
-            "the ROS 2 bounds are not tight: a change that stays above the true worst case of every sampled workload is invisible (DESIGN.md 3.5)",
-        ],
-        &|r: &Report| {
-            let sc = match RosScenario::from_text(&r.replay) {
-                Ok(sc) => sc,
-                Err(e) => {
-                    eprintln!("HARNESS-ERROR: own replay text does not parse: {}", e);
-                    std::process::exit(2);
+            &|r: &Report| {
+                let sc = match RosScenario::from_text(&r.replay) {
+                    Ok(sc) => sc,
+                    Err(e) => {
+                        eprintln!("HARNESS-ERROR: own replay text does not parse: {}", e);
+                        std::process::exit(2);
+                    }
+                };
+                let (m, v) = minimise_ros(&sc, &r.key, 400);
+                match v {
+                    Some(v) => {
+                        let note = r.replay.lines().find_map(|l| l.strip_prefix("note ")).unwrap_or("");
+                        (
+                            ros_replay_text(&prop_owned, &m, &v, &format!("{} (minimised from {} arrivals / {} callbacks)", note, sc.arrivals.len(), sc.wl.cbs.len())),
+                            ros_summary(&m, &v),
+                        )
+                    }
+                    None => (r.replay.clone(), r.summary.clone()),
                 }
-            };
-            let (m, v) = minimise_ros(&sc, &r.key, 400);
-            match v {
-                Some(v) => {
-                    let note = r.replay.lines().find_map(|l| l.strip_prefix("note ")).unwrap_or("");
-                    (
-                        ros_replay_text(&prop_owned, &m, &v, &format!("{} (minimised from {} arrivals / {} callbacks)", note, sc.arrivals.len(), sc.wl.cbs.len())),
-                        ros_summary(&m, &v),
-                    )
-                }
-                None => (r.replay.clone(), r.summary.clone()),
-            }
-        },
-    );
-    out.exit_code
+            },
+        );
+        out.exit_code
+    };
+    run_parallel_then(inputs, opt.jobs, 90, |k, acc, note| ros_item(&sh, k, acc, note), &fin)
 }
 
 pub fn replay_ros(path: &str, text: &str) -> i32 {
